@@ -18,7 +18,7 @@ def main():
     mon = importlib.import_module("vf.monitors." + prop.lower())
     b = mon.budget(tier)
     total, cap = b["cases"], b["seconds"]
-    faulthandler.dump_traceback_later(cap * 4 + 120, exit=True)
+    faulthandler.dump_traceback_later(cap * 4 + 600, exit=True)
     acc = case.new_acc()
     os.environ["TZ"] = "UTC"
     time.tzset()
